@@ -905,6 +905,18 @@ def r5_supported(ctx, prog):
 def run(ctx):
     prog = ctx.mir("main")
     rules = [r1_cache_key(ctx, prog), r2_lock(ctx, prog), r3_tables(ctx, prog), r4_entry_points(ctx, prog), r5_supported(ctx, prog)]
+    # `for the locale being rendered`: the generated arms hand the builder's locale field to the format_* calls untouched - the
+    # arm read-back of rules/gentext.py (an arm only binds its table and renders its value; also an arm shared with fallback locales)
+    from rules import gentext, absint as _absint
+    from report import Rule as _Rule
+    r6 = _Rule("C18.R6", "generated arms pass the locale being rendered to the formatters, also when the text comes from a fallback locale",
+               "`the output equals ICU4X formatting ... for the locale being rendered`: an arm shared by the locales that fall back to it receives the requested "
+               "locale in the builder's locale field; rebinding it (e.g. to the locale the text was written in) formats numbers and dates for another locale", floor=2)
+    try:
+        gentext.check_locale_arms(ctx, r6, rid="R6")
+    except _absint.Unknown as u:
+        r6.viol("R6:undecided", "the per-locale generators cannot be interpreted on the current code (%s): not decided on this tree (fail closed)" % str(u)[:300])
+    rules.append(r6)
     if ctx.tier == "thorough":
         # the same MIR rules on the client-less build (no ssr / dynamic_load): other cfg branches of the same functions
         for cfg in ("plain", "hydrate"):
